@@ -3,8 +3,11 @@
    result = (res (bm max_bookmark_id (roots ...) (tbl (id (pid pgen) (children ...)) ...))
                  (root none | (id gen)) <doc after build_outline + attach> <toc> <toc after reload>)
    The model of save_to + load_mem is the identity on objects (Props/C17.v states the reload
-   theorem over exactly that hypothesis); the harness really saves and reloads. *)
+   theorem over exactly that hypothesis); the harness really saves and reloads.
+   get_toc is Model/TocNamed.v's: the complete model, which runs get_named_destinations (Model/Query.v) on the
+   catalog's Dests / Names tree first. *)
 From LV Require Import Base.Bytes Base.Sx Model.Obj Model.DocQ Model.PageTree Model.Outline Model.Toc.
+From LV Require Model.TocNamed.
 
 Definition ustring_to_sx (s : ustring) : sx := SL (sx_id "t" :: map sx_N s).
 Definition ustring_of_sx (x : sx) : option ustring :=
@@ -57,7 +60,7 @@ Definition run_case (d : doc) (ops : list bop) (adjust reload : bool) : sx :=
                 | Some n, Some cid => attach (base b2) cid n
                 | _, _ => base b2
                 end in
-      let t := toc_to_sx (get_toc (toc_fuel d2) d2) in
+      let t := toc_to_sx (TocNamed.get_toc (toc_fuel d2) d2) in
       SL [sx_id "res"; bm_to_sx b2;
           SL [sx_id "root"; match root with Some n => oid_to_sx n | None => sx_id "none" end];
           doc_to_sx d2; t;
